@@ -125,7 +125,7 @@ func lower(doc Doc, l Layout) []symObj {
 		}
 	}
 	for i := range doc.Pages {
-		leafAttr[i] = attrs{box: bl == 0, res: rl == 0, rot: ol == 0 && doc.Pages[i].Rotate != 0}
+		leafAttr[i] = attrs{box: bl == 0, res: rl == 0, rot: ol == 0 && (doc.Pages[i].Rotate != 0 || l.Shadow)}
 	}
 	// a leaf whose value differs from the inherited one overrides it
 	for _, n := range nodes {
@@ -145,6 +145,7 @@ func lower(doc Doc, l Layout) []symObj {
 	}
 
 	// ---- page tree nodes -------------------------------------------------
+	needDecoy := false
 	for _, n := range nodes {
 		d := Dict{{"Type", Name("Pages")}}
 		if n.parent != nil {
@@ -171,7 +172,33 @@ func lower(doc Doc, l Layout) []symObj {
 		if a.res {
 			d = d.with("Resources", resEntry)
 		}
+		if l.Shadow && len(n.all) > 0 {
+			first := doc.Pages[n.all[0]]
+			if n.level > bl {
+				d = d.with("MediaBox", Arr{Int(0), Int(0), Int(100), Int(100)})
+			}
+			if n.level > ol {
+				d = d.with("Rotate", Int((first.Rotate+90)%360))
+			}
+			if n.level > rl {
+				needDecoy = true
+				df := Dict{}
+				for _, f := range doc.Fonts {
+					df = df.with(f.Res, Ref("font:decoy"))
+				}
+				d = d.with("Resources", Dict{{"Font", df}})
+			}
+		}
 		add(n.id, d)
+	}
+	if needDecoy {
+		// a font that decodes every printable code to '#': text read through it is recognisably wrong
+		var m []MapEnt
+		for c := 0x20; c <= 0xFF; c++ {
+			m = append(m, MapEnt{c, "#"})
+		}
+		add("tu:decoy", &Stream{Data: ToUnicodeCMap(m, 1)})
+		add("font:decoy", Dict{{"Type", Name("Font")}, {"Subtype", Name("Type1")}, {"BaseFont", Name("Courier")}, {"ToUnicode", Ref("tu:decoy")}})
 	}
 
 	// ---- pages and their content streams --------------------------------
@@ -220,7 +247,7 @@ func lower(doc Doc, l Layout) []symObj {
 				chain = l.Filters[streamNo%len(l.Filters)]
 			}
 			streamNo++
-			add(cid, &Stream{Data: part, Chain: chain, Pred: l.Predictor})
+			add(cid, &Stream{Data: part, Chain: chain, Pred: l.Predictor, Array1: l.FilterArray1})
 			refs = append(refs, Ref(cid))
 		}
 		switch {
